@@ -10,7 +10,7 @@
 (* per subset.  Concrete tags and reference kinds are rotated over the      *)
 (* tables of Filter.tla (Salt shifts the rotation).                         *)
 EXTENDS Filter, TLC, Json
-CONSTANTS MaxN, MaxUnits, MaxEdges, MaxEdgesBig, Salt, EmitMod, CheckSplit
+CONSTANTS MaxN, MaxUnits, MaxEdges, MaxEdgesBig, Salt, EmitMod, CheckSplit, KindN, FewSubsets
 VARIABLE g
 
 Classes == {"ns", "noback", "back"}
@@ -46,7 +46,7 @@ TagOf(class, e, toplevel, rot) ==
 DeclOf(class, tag) == tag = "DW_TAG_subprogram" /\ class = "back"
 
 Empty == [phase |-> "forest", n |-> 0, nunits |-> 1, unit |-> <<>>, parent |-> <<>>, class |-> <<>>,
-          edges |-> <<>>, last |-> -1]
+          edges |-> <<>>, last |-> -1, solo |-> FALSE]
 Init == g = Empty
 
 (* rightmost path of the last entry (candidates for the next entry's parent) *)
@@ -74,19 +74,6 @@ TagStep == /\ g.phase = "tags"
               \E c \in ClassChoices(g, e) :
                 g' = [g EXCEPT !.class = Append(@, c),
                                !.phase = IF e = g.n THEN "edges" ELSE "tags"]
-(* edges are added in increasing index order, so each set is built once *)
-NTargets(s) == s.n + s.nunits + 1
-EdgeIndex(s, f, t) == (f - 1) * NTargets(s) + (t + s.nunits)
-EdgeBound(s) == IF s.n >= MaxN /\ MaxN > 3 THEN MaxEdgesBig ELSE MaxEdges
-EdgeStep == /\ g.phase = "edges" /\ Len(g.edges) < EdgeBound(g)
-            /\ \E f \in 1..g.n : \E t \in (-g.nunits)..g.n :
-                 /\ EdgeIndex(g, f, t) > g.last
-                 /\ g' = [g EXCEPT !.edges = Append(@, <<f, t>>), !.last = EdgeIndex(g, f, t)]
-Finish == /\ g.phase = "edges"
-          /\ g' = [g EXCEPT !.phase = "final"]
-Next == AddEntryStep \/ SetUnits \/ StartTags \/ TagStep \/ EdgeStep \/ Finish
-
------------------------------------------------------------------------------
 (* kinds that can encode an edge f -> t *)
 KindsFor(s, f, t) ==
     IF t = 0 THEN <<"attr_unit">> \o InfoKinds
@@ -94,9 +81,28 @@ KindsFor(s, f, t) ==
          IF tu # s.unit[f] THEN InfoKinds
          ELSE IF t < f THEN TypedKinds \o AllKinds  \* the target precedes the source: typed operations possible
          ELSE InfoKinds \o UnitKinds
+(* edges are added in increasing index order, so each set is built once *)
+NTargets(s) == s.n + s.nunits + 1
+EdgeIndex(s, f, t) == (f - 1) * NTargets(s) + (t + s.nunits)
+EdgeBound(s) == IF s.n >= MaxN /\ MaxN > 3 THEN MaxEdgesBig ELSE MaxEdges
+EdgeStep == /\ g.phase = "edges" /\ Len(g.edges) < EdgeBound(g) /\ ~g.solo
+            /\ \E f \in 1..g.n : \E t \in (-g.nunits)..g.n :
+                 /\ EdgeIndex(g, f, t) > g.last
+                 /\ \/ g' = [g EXCEPT !.edges = Append(@, <<f, t, "">>), !.last = EdgeIndex(g, f, t)]
+                    (* single-edge graphs over few entries: every kind that can encode the edge *)
+                    \/ /\ Len(g.edges) = 0 /\ g.n <= KindN
+                       /\ \E k \in Range(KindsFor(g, f, t)) :
+                            g' = [g EXCEPT !.edges = Append(@, <<f, t, k>>), !.last = EdgeIndex(g, f, t),
+                                           !.solo = TRUE]
+Finish == /\ g.phase = "edges"
+          /\ g' = [g EXCEPT !.phase = "final"]
+Next == AddEntryStep \/ SetUnits \/ StartTags \/ TagStep \/ EdgeStep \/ Finish
+
+-----------------------------------------------------------------------------
 Rot(s) == Salt + 3 * s.n + 11 * Len(s.edges) + (IF s.n > 0 THEN 2 * s.unit[s.n] ELSE 0)
 KindOf(s, i) == LET f == s.edges[i][1]  t == s.edges[i][2]  ks == KindsFor(s, f, t)
-                IN ks[((Rot(s) + 13 * i + 5 * f + 3 * (t + s.nunits)) % Len(ks)) + 1]
+                IN IF s.edges[i][3] # "" THEN s.edges[i][3]
+                   ELSE ks[((Rot(s) + 13 * i + 5 * f + 3 * (t + s.nunits)) % Len(ks)) + 1]
 
 Graph(s) ==
     LET tags == [e \in 1..s.n |-> TagOf(s.class[e], e, s.parent[e] = 0, Rot(s))] IN
@@ -109,38 +115,59 @@ RECURSIVE Subsets(_)
 Subsets(k) == IF k = 0 THEN <<{}>>
               ELSE LET r == Subsets(k - 1) IN r \o [i \in 1..Len(r) |-> r[i] \cup {k}]
 
-(* reference edges that decide the result for some required set *)
+(* reference edges that decide a result: without the edge the target is not  *)
+(* in the closure of the source                                              *)
 Without(G, i) == [G EXCEPT !.refs = SubSeq(G.refs, 1, i - 1) \o SubSeq(G.refs, i + 1, Len(G.refs))]
-Decisive(G, subs) == {G.refs[i].kind : i \in {j \in DOMAIN G.refs :
-                        \E k \in DOMAIN subs : Must(Without(G, j), subs[k]) # Must(G, subs[k])}}
-(* tags that decide the result: flipping the member-like status changes it *)
-DecisiveTags(G, subs) ==
-    {G.tag[e] : e \in {x \in 1..G.n : G.parent[x] # 0 /\ ~IsNamespace(G.tag[G.parent[x]]) /\
-         \E k \in DOMAIN subs : G.parent[x] \in Must(G, subs[k]) /\
-              (x \in Must(G, subs[k])) # (x \in Must([G EXCEPT !.tag[x] = "DW_TAG_namespace"], subs[k]))}}
+Decisive(G) == {G.refs[i].kind : i \in {j \in DOMAIN G.refs :
+                   /\ G.refs[j].to \in 1..G.n
+                   /\ G.refs[j].to \notin LfpF(NeedsFn(Without(G, j)), {G.refs[j].from})}}
+(* tags whose classification decides a result: a member-like child that is   *)
+(* retained only as a member of its parent, or a stand-alone child that is    *)
+(* not in the closure of its parent                                          *)
+DecisiveTags(G, nd, must1) ==
+    {G.tag[x] : x \in {y \in 1..G.n :
+        LET p == G.parent[y] IN
+        /\ p # 0 /\ ~IsNamespace(G.tag[p])
+        /\ IF HasDieBackEdge(G.tag[y], G.decl[y])
+           THEN y \notin LfpF([nd EXCEPT ![p] = (Needs(G, p) \ MemberChildren(G, p)) \cup (MemberChildren(G, p) \ {y})], {p})
+           ELSE y \notin must1[p]}}
+
+(* quick tier: graphs with MaxN >= 4 entries are replayed for the empty set, *)
+(* the singletons and the full set only                                      *)
+SubsetsFor(n) == IF FewSubsets /\ n >= 4 /\ n = MaxN
+                 THEN <<{}>> \o [i \in 1..n |-> {i}] \o <<1..n>>
+                 ELSE Subsets(n)
 
 Emit(s) == (Rot(s) + 17 * Len(s.class) + (IF s.last < 0 THEN 0 ELSE s.last)) % EmitMod = 0
 
-Case(G, subs, res) ==
+Case(G, subs, res, nd, must1) ==
     [sys |-> "filter", nunits |-> G.nunits,
      entries |-> [e \in 1..G.n |-> [id |-> e, unit |-> G.unit[e], parent |-> G.parent[e],
                                    tag |-> G.tag[e], decl |-> G.decl[e]]],
      refs |-> G.refs,
      invalid |-> {e \in 1..G.n : HasInvalidRef(G, e)},
      exp |-> [k \in DOMAIN subs |-> [req |-> subs[k], must |-> res[k].M, may |-> res[k].Y]],
-     decisive |-> Decisive(G, subs), dtags |-> DecisiveTags(G, subs)]
+     decisive |-> Decisive(G), dtags |-> DecisiveTags(G, nd, must1)]
 
+(* The closure operators distribute over union, so the closures of all      *)
+(* subsets are assembled from the closures of the singletons; CheckSplit     *)
+(* re-checks this (and the traversal split) against the definitions.         *)
 Inv == g.phase = "final" =>
        LET G == Graph(g)
-           subs == Subsets(g.n)
+           subs == SubsetsFor(g.n)
            nd == NeedsFn(G)
            lk == LinkedFn(G)
+           must1 == [e \in 1..G.n |-> LfpF(nd, {e})]
+           may1 == [e \in 1..G.n |-> LfpF(lk, {e})]
            m0 == TraverseAll(G)
            res == [k \in DOMAIN subs |-> [w |-> GRRun(GRInit(WithRequired(m0, G, subs[k]))),
-                                          M |-> LfpF(nd, subs[k]), Y |-> LfpF(lk, subs[k])]] IN
+                                          M |-> UNION {must1[e] : e \in subs[k]},
+                                          Y |-> UNION {may1[e] : e \in subs[k]}]] IN
        /\ WellFormed(G)
        /\ \A k \in DOMAIN subs : /\ ResultOkWith(G, subs[k], res[k].w, res[k].M, res[k].Y, nd)
                                  /\ AllowedWith(nd, res[k].M, res[k].Y, Range(res[k].w.reachable))
-                                 /\ (CheckSplit => Traverse(MInit, G, subs[k], 1) = WithRequired(m0, G, subs[k]))
-       /\ (Emit(g) => PrintT(<<"CASE", ToJson(Case(G, subs, res))>>))
+                                 /\ (CheckSplit => /\ Traverse(MInit, G, subs[k], 1) = WithRequired(m0, G, subs[k])
+                                                   /\ res[k].M = Must(G, subs[k])
+                                                   /\ res[k].Y = May(G, subs[k]))
+       /\ (Emit(g) => PrintT(<<"CASE", ToJson(Case(G, subs, res, nd, must1))>>))
 =============================================================================
